@@ -474,6 +474,82 @@ pub fn body(case: &Case, out: &Shared) {
             _ => {}
         }
     }
+    // optional concurrent phase: 2-3 writers on disjoint key sets (group commits: several batches
+    // in flight at a crash point, possibly merged into one WAL record)
+    if healthy && !plan.clients.is_empty() && db.is_some() && !rt::is_poisoned() {
+        let shared = Arc::new(db.take().unwrap());
+        let plan_arc = Arc::new(plan.clone());
+        let mut hs = vec![];
+        for c in 0..plan.clients.len() {
+            let (d2, p2, fs2, o2) = (Arc::clone(&shared), Arc::clone(&plan_arc), Arc::clone(&fs), Arc::clone(out));
+            let h = rt::thread::Builder::new()
+                .name(format!("writer-{}", c))
+                .spawn(move || {
+                    let nk = p2.keys.len();
+                    let mut mine: Vec<WriteRec> = vec![];
+                    for op in p2.clients[c].iter() {
+                        if rt::is_poisoned() {
+                            break;
+                        }
+                        rt::sched_point(rt::YieldKind::Client);
+                        let mut items: Items = vec![];
+                        match op {
+                            Op::Put { k, v } => items.push((p2.keys[*k % nk].clone(), Some(v.bytes()))),
+                            Op::Delete { k } => items.push((p2.keys[*k % nk].clone(), None)),
+                            Op::Batch { items: its } => {
+                                for (k, v) in its {
+                                    items.push((p2.keys[*k % nk].clone(), v.as_ref().map(|v| v.bytes())));
+                                }
+                            }
+                            _ => continue,
+                        }
+                        let mut b = Batch::new();
+                        for (k, v) in &items {
+                            match v {
+                                Some(v) => {
+                                    b.add_put(k.clone(), v.clone());
+                                }
+                                None => {
+                                    b.add_delete(k.clone());
+                                }
+                            }
+                        }
+                        let inv_len = fs2.mut_log_len();
+                        let r = call("apply", || d2.apply(WriteOptions::default(), b));
+                        let ret_len = fs2.mut_log_len();
+                        with_out(&o2, |o| {
+                            o.stats.writes += 1;
+                            o.stats.ops += 1;
+                        });
+                        match r {
+                            Called::Ok(Ok(())) => mine.push(WriteRec { inv_len, ret_len, items }),
+                            _ => break,
+                        }
+                    }
+                    drop(d2);
+                    mine
+                })
+                .expect("spawn writer");
+            hs.push(h);
+        }
+        for h in hs {
+            match h.join() {
+                Ok(w) => recs.extend(w),
+                Err(_) => healthy = false,
+            }
+        }
+        with_out(out, |o| o.stats.probe("concurrent_writers_in_base_run"));
+        match Arc::try_unwrap(shared) {
+            Ok(d) => db = Some(d),
+            Err(d) => {
+                std::mem::forget(d);
+                healthy = false;
+            }
+        }
+        if rt::is_poisoned() {
+            healthy = false;
+        }
+    }
     // half of the base runs are closed cleanly (close is part of the log), half are left open and
     // simply "killed" at the end
     let clean_close = case.params.get("clean_close").copied().unwrap_or(1) != 0;
